@@ -156,11 +156,11 @@ func c01Gen(g *core.Gen, emit func(*p2Case)) {
 func c01LargeConfigs(thorough bool) []scen.P2Config {
 	out := []scen.P2Config{
 		{Sizes: []int{16383, 16384, 16385, 20000}, Slice: 2000, Blocks: 12, Class: "uniq", G: 3}, // around the 16 KiB hash boundary
-		{Sizes: []int{4 * 257, 4 * 43}, Slice: 4, Blocks: 50, Class: "uniq", G: 2},              // >256 slices: other constants
+		{Sizes: []int{4 * 257, 4 * 43}, Slice: 4, Blocks: 50, Class: "uniq", G: 2},               // >256 slices: other constants
 		{Sizes: []int{64 * 20, 64*3 + 5}, Slice: 64, Blocks: 7, Class: "uniq", G: 7},
 		{Sizes: []int{300000, 70001}, Slice: 4096, Blocks: 5, Class: "uniq", G: 3}, // files and recovery files well above 64 KiB (buffered I/O sizes)
-		{Sizes: []int{8 * 32766, 8, 5}, Slice: 8, Blocks: 2, Class: "uniq", G: 4}, // exactly 32768 slices: the format's limit (slice 8: no coincidental matches)
-		{Sizes: []int{8 * 32765, 8, 5}, Slice: 8, Blocks: 2, Class: "uniq", G: 2}, // 32767
+		{Sizes: []int{8 * 32766, 8, 5}, Slice: 8, Blocks: 2, Class: "uniq", G: 4},  // exactly 32768 slices: the format's limit (slice 8: no coincidental matches)
+		{Sizes: []int{8 * 32765, 8, 5}, Slice: 8, Blocks: 2, Class: "uniq", G: 2},  // 32767
 	}
 	if thorough {
 		out = append(out,
